@@ -503,7 +503,7 @@ func (s *Sys[M, A, V, E]) UnitAgg(r *verifmc.Run, t interface{ Fatalf(string, ..
 			if len(batch) <= plan.RTMaxBatch {
 				s.CheckBatch(r, v, j.inst, j.seedIdx, batch, true)
 			}
-			if ji == 0 && len(batch) == 2 {
+			if ji == 0 && len(batch) == 2 { // one job only: samples stay the same on every run
 				r.Sample(map[string]interface{}{"instance": j.inst.String(), "aggregators": j.shares, "batch": fmt.Sprint(batch), "aggregate": fmt.Sprint(j.inst.Aggregate(batch))})
 			}
 		})
@@ -962,7 +962,7 @@ func altGroup(name string) string {
 // one valid report must make the report be refused by every aggregator that
 // consumes the altered data, and must leave the instance able to prepare the
 // unaltered report with identical output.
-func (s *Sys[M, A, V, E]) CheckAlterations(r *verifmc.Run, v VDAF[M, A, V, E], inst prio.Inst, seedIdx int, meas []uint64, light bool) {
+func (s *Sys[M, A, V, E]) CheckAlterations(r *verifmc.Run, v VDAF[M, A, V, E], inst prio.Inst, seedIdx int, meas []uint64, light bool) (sample interface{}) {
 	params := v.Params()
 	shares := int(params.Shares())
 	vk, nonce, rnd := Material(params.RandSize(), r.Seed(), seedIdx, 0)
@@ -1084,8 +1084,8 @@ func (s *Sys[M, A, V, E]) CheckAlterations(r *verifmc.Run, v VDAF[M, A, V, E], i
 			})
 		}
 	}
-	r.Sample(map[string]interface{}{"instance": inst.String(), "aggregators": shares, "measurement": fmt.Sprint(meas),
-		"alterations": len(altList(inst, &params, light)), "example": "input@agg0/meas:elem0+1"})
+	return map[string]interface{}{"instance": inst.String(), "aggregators": shares, "measurement": fmt.Sprint(meas),
+		"alterations": len(altList(inst, &params, light)), "example": "input@agg0/meas:elem0+1"}
 }
 
 // UnitInvalid: malicious-client reports and single-field alterations.
@@ -1158,6 +1158,7 @@ func (s *Sys[M, A, V, E]) UnitInvalid(r *verifmc.Run, t interface{ Fatalf(string
 	r.Set("seed_alphabet", nSeeds)
 	r.Set("seed_alphabet_note", "more than three aggregators: the first two entries only")
 	r.Set("product_cap", plan.ProductCap)
+	samples := make([]interface{}, len(jobs))
 	verifmc.ParallelFor(len(jobs), func(ji int) {
 		j := jobs[ji]
 		if r.Expired() {
@@ -1170,7 +1171,7 @@ func (s *Sys[M, A, V, E]) UnitInvalid(r *verifmc.Run, t interface{ Fatalf(string
 			return
 		}
 		if j.kind == 1 {
-			s.CheckAlterations(r, v, j.inst, j.seedIdx, j.meas, j.light)
+			samples[ji] = s.CheckAlterations(r, v, j.inst, j.seedIdx, j.meas, j.light)
 			return
 		}
 		ev, err := s.MakeEvil(j.inst, uint8(j.shares))
@@ -1178,16 +1179,25 @@ func (s *Sys[M, A, V, E]) UnitInvalid(r *verifmc.Run, t interface{ Fatalf(string
 			panic("harness: cannot build the malicious sharder: " + err.Error())
 		}
 		valid, _ := j.inst.ValidEncodedSet(plan.SetLimit)
+		nVec, firstInvalid := 0, ""
 		complete := EvilVectors(j.inst, valid, plan.ProductCap, func(vec []*big.Int, how string) {
+			nVec++
+			if _, ok := valid[j.inst.Key(vec)]; !ok && firstInvalid == "" {
+				firstInvalid = j.inst.Key(vec)
+			}
 			s.CheckEvil(r, v, ev, j.inst, j.seedIdx, vec, how, valid)
 		})
 		if complete {
 			r.Count("complete_products", 1)
 		}
-		if j.seedIdx == 0 && j.shares == plan.Shares[0] {
-			r.Sample(map[string]interface{}{"instance": j.inst.String(), "valid_encodings": len(valid), "product_complete": complete})
-		}
+		samples[ji] = map[string]interface{}{"instance": j.inst.String(), "aggregators": j.shares, "valid_encodings": len(valid), "product_complete": complete,
+			"encoded_measurements_submitted": nVec, "first_invalid_one_hex": firstInvalid}
 	})
+	for k := len(samples) - 1; k >= 0; k-- { // smallest jobs first, in job order: the same samples on every run
+		if samples[k] != nil {
+			r.Sample(samples[k])
+		}
+	}
 	r.RequireCounter("altered_reports_rejected", 1)
 }
 
